@@ -727,6 +727,28 @@ func checkClockRebuild(c *Ctx) {
 				}
 			}
 		}
+		// the edit time witnessed is that of the head commit (the one resolved from the ref), never of an ancestor
+		okHead := true
+		for _, cl := range Calls(rf) {
+			if strings.HasSuffix(cl.Name, ".Witness") && strings.HasPrefix(cl.Name, "repository.") && clockKind(w, cl.Args()[0]) == "edit" {
+				for _, o := range origins(cl.Args()[1]) {
+					if o.Kind == "call" && o.Name == "entity/dag.readOperationPackClock" {
+						commitArg := o.Val.(*ssa.Call).Common().Args[1]
+						for _, sv := range reachingValues(rf, commitArg) {
+							for _, co := range origins(sv) {
+								if co.Kind == "call" && strings.HasSuffix(co.Name, ".ReadCommit") {
+									rc := co.Val.(*ssa.Call)
+									if hasOriginCall(rc.Common().Args[0], "repository.RepoData.ResolveRef", 0) == nil || hasField(rc.Common().Args[0], "Parents") {
+										okHead = false
+									}
+								}
+							}
+						}
+					}
+				}
+			}
+		}
+		c.Check(okHead, "R5.4", "dag.readClockNoCheck:edit-time-of-head", w.FnPos(rf), "the edit clock is rebuilt from the head commit", "the edit time witnessed when rebuilding clocks can come from an ancestor commit instead of the head: the rebuilt clock is lower than times stored in reachable commits")
 		c.Check(seen["create"] == "0" && seen["edit"] == "1", "R5.4", "dag.readClockNoCheck:witness-roles", w.FnPos(rf), "creation clock ← create time, edit clock ← edit time", fmt.Sprintf("clock rebuild witnesses the wrong values (create clock ← result %q, edit clock ← result %q of readOperationPackClock)", seen["create"], seen["edit"]))
 		// all refs: ReadAllClocksNoCheck ranges over ListRefs result without filtering
 	}
@@ -784,4 +806,31 @@ func init() {
 			checkMergeCommitPack(c)
 			checkClockRebuild(c)
 		})
+}
+
+// reachingValues: v itself, or — when v is a load of a local cell — the values of the stores into
+// that cell from which the load can be reached (flow-sensitive, unlike origins()).
+func reachingValues(fn *ssa.Function, v ssa.Value) []ssa.Value {
+	u, ok := v.(*ssa.UnOp)
+	if !ok || u.Op != token.MUL {
+		return []ssa.Value{v}
+	}
+	al, ok := u.X.(*ssa.Alloc)
+	if !ok {
+		return []ssa.Value{v}
+	}
+	var out []ssa.Value
+	for _, r := range *al.Referrers() {
+		st, ok := r.(*ssa.Store)
+		if !ok || st.Addr != al {
+			continue
+		}
+		if reach, _, _ := pathSearch(fn, st, nil, func(i ssa.Instruction) bool { return i == ssa.Instruction(u) }, nil, false); reach {
+			out = append(out, st.Val)
+		}
+	}
+	if len(out) == 0 {
+		return []ssa.Value{v}
+	}
+	return out
 }
